@@ -712,10 +712,10 @@ def scen_C10(ctx):
             x = int(t[1])
             if kv['i64'] != kv['i64r'] or int(kv['back']) != x or int(kv['backv']) != x:
                 viol = 'i64 %d does not convert back to itself: %s' % (x, l); break
-        elif t[0] == 'c' and len(t) > 4 and t[4] != 'panic' and (t[1] == 'vu64' or (t[1] in ('u64', 'i64') and len(t[2]) == 16 and len(t[3]) == 16)):
+        elif t[0] == 'c' and len(t) > 4 and t[4] != 'panic' and (t[1] in ('vu64', 'string', 'bytes') or (t[1] in ('u64', 'i64') and len(t[2]) == 16 and len(t[3]) == 16)):
             # distinct integers are distinct keys: the stored-key comparison says Equal exactly for identical encodings
             if (t[4] == 'Equal') != (t[2] == t[3]):
-                viol = 'cmp_u8 of the %s keys %s and %s is %s: two different integers are treated as one key (or one integer as two)' % (t[1], t[2], t[3], t[4]); break
+                viol = 'cmp_u8 of the %s keys %s and %s is %s: two different keys are treated as one key (or one key as two)' % (t[1], t[2], t[3], t[4]); break
     if viol:
         ctx.violation('conv', viol, None)
     diff, bad, end = tool_diff(ctx, 'conv', [C.HARNESS, 'conv', f], [C.DRIVER, 'conv', f], normalize=norm, sample=True)
